@@ -194,6 +194,65 @@ def flow_scenarios(replays, tag, rng):
     return out
 
 
+def reader_scenarios(replays, tag, limit):
+    """MC_Reader behaviours (PMAX = 3) mapped to the real PMAX by landmarks: a payload of a*3+d bytes becomes
+    a*(2^24-1)+d bytes; a read boundary inside a header stays at that header byte; a boundary at the first /
+    last / an interior byte of a full fragment maps to the first / last / an interior byte of the real fragment."""
+    from . import gens_big as GB
+    PMm = 3
+    out = []
+    # prefer behaviours that cross fragment boundaries with several reads
+    cand = [r for r in replays if all(x >= 1 for x in r['lens']) and any(x >= PMm for x in r['lens']) and len(r['chunks']) >= 3]
+    cand.sort(key=lambda r: (-len(set(r['chunks'])), -len(r['chunks'])))
+    seen = set()
+    for r in cand:
+        key = (tuple(r['lens']), tuple(r['chunks'][:6]))
+        if key in seen:
+            continue
+        seen.add(key)
+        c = GB.BigConv('%s-mcr-%03d' % (tag, len(out)), mode='pipelined', meta={'origin': 'tlc-behaviour', 'model': 'MC_Reader', 'lens': r['lens'], 'chunks': r['chunks']})
+        base = sum(GB.runs_len(m['b']) for m in c.msgs)       # the handshake precedes the modelled stream
+        mapping = {0: 0}                                       # model offset -> real offset (relative to the modelled stream)
+        moff, roff = 0, 0
+        for i, ln in enumerate(r['lens']):
+            real_len = (ln // PMm) * GB.PM + (ln % PMm)
+            c.cmd_runs(GB.canon([[3, 1]] + GB.pattern_ascii(real_len - 1, i)), r['seq0s'][i])
+            c.programs.append([op_completed(i, 0)])
+            left_m, left_r = ln, real_len
+            while True:
+                fm = min(left_m, PMm)
+                fr = GB.PM if fm == PMm else left_m
+                for h in range(1, 5):                          # header bytes
+                    mapping[moff + h] = roff + h
+                moff += 4
+                roff += 4
+                for j in range(1, fm + 1):                     # payload bytes of this fragment
+                    if j == fm:
+                        mapping[moff + j] = roff + fr
+                    elif j == 1:
+                        mapping[moff + j] = roff + 1
+                    else:
+                        mapping[moff + j] = roff + fr // 2 + j
+                moff += fm
+                roff += fr
+                left_m -= fm
+                left_r -= fr
+                if fm < PMm:
+                    break
+        pos = 0
+        cuts = []
+        for k in r['chunks']:
+            pos += k
+            if pos in mapping:
+                cuts.append(base + mapping[pos])
+        c.cuts = cuts
+        c.small(com_quit())
+        out.append(c.build())
+        if len(out) >= limit:
+            break
+    return out
+
+
 def run_models(pid, tier, work, jobs, rng):
     specs = models_for(pid, tier)
     info = {'states': 0, 'transitions': 0, 'models': [], 'exhaustive': bool(specs)}
@@ -206,8 +265,10 @@ def run_models(pid, tier, work, jobs, rng):
         if pid == 'C03':
             emit.append(('writer', ex.submit(tlc_mc, 'MC_Writer', 'MC_Writer_emit4.cfg' if tier != 'quick' else 'MC_Writer_emit.cfg', work, 1, 1500, None, True)))
         if pid in ('C10', 'C16', 'C17', 'C08'):
-            n = 120 if tier == 'quick' else 1500
+            n = 400 if tier == 'quick' else 3000
             emit.append(('stmts', ex.submit(tlc_mc, 'MC_Stmts', 'MC_Stmts_sim.cfg', work, 1, 1500, ('num=%d' % n, 14), True)))
+        if pid == 'C01':
+            emit.append(('reader', ex.submit(tlc_mc, 'MC_Reader', 'MC_Reader_sim.cfg', work, 1, 1500, ('num=%d' % (300 if tier == 'quick' else 3000), 80), True)))
         if pid in ('C12', 'C11', 'C02'):
             emit.append(('flow', ex.submit(tlc_mc, 'MC_Flow', 'MC_Flow_emit.cfg', work, 1, 1500, None if tier != 'quick' else ('num=400', 60), True)))
         for expect, f in futs:
@@ -231,6 +292,8 @@ def run_models(pid, tier, work, jobs, rng):
             reps = r['replays']
             if kind == 'writer':
                 s2i += writer_scenarios(reps, pid)
+            elif kind == 'reader':
+                s2i += reader_scenarios(reps, pid, 6 if tier == 'quick' else 40)
             elif kind == 'stmts':
                 # de-duplicate histories
                 seen, uniq = set(), []
